@@ -81,8 +81,6 @@ theorem C05_error_data_null_vs_absent :
     (⟨1, "m", .unset, "X"⟩ : RpcError).toJson ≠ (⟨1, "m", .set .null, "X"⟩ : RpcError).toJson := by
   decide
 
-/-- A response the library can construct (exactly one of result / error). -/
-def Response.WF (r : Response) : Prop := r.result.isSet ≠ r.error.isSet
 
 theorem Response.construct_ok_iff (id : Option ReqId) (res : MaybeSet Json) (err : MaybeSet RpcError) :
     (∃ r, Response.construct id res err = .ok r) ↔ (⟨id, res, err⟩ : Response).WF := by
